@@ -10,7 +10,7 @@ LEVEL = "translation_validation"
 
 def part1(rep, tier):
     """Translation validation of the real tseitin CNFs (genuine stack, separate process)."""
-    args = ["2", "2"] if tier == "quick" else ["3", "2"]
+    args = ["2", "2"] if tier == "quick" else ["2", "3"]
     env = dict(os.environ, INFOCF_LOGLEVEL="ERROR")
     p = subprocess.run([concretise.REAL_PY, os.path.join(concretise.VERIF, "vf", "tv_cnf.py")] + args + (["--quick"] if tier == "quick" else []),
                        capture_output=True, text=True, env=env, timeout=7200)
